@@ -81,15 +81,20 @@ type opIn struct {
 	// hold: GetAdditionalBucket(bkt), KEEP the returned (db, name) in Slot, Get(key) through it
 	// hput / hget: Put / Get through the name kept in Slot (no new GetAdditionalBucket)
 	// cadd: one goroutine per entry of Multi does GetAdditionalBucket(entry) and Put(key, raw_i) at once
-	Kind  string  `json:"kind"`
-	Slot  int     `json:"slot,omitempty"`
-	Multi [][]int `json:"multi,omitempty"`
-	Svc   int     `json:"svc"` // index into Names
-	Key   []int   `json:"key,omitempty"`
-	Val   int     `json:"val,omitempty"` // value number (save) ; raw bytes number (addput)
-	Ver   int64   `json:"ver,omitempty"`
-	Bkt   []int   `json:"bkt,omitempty"`
-	Raw   []int   `json:"raw,omitempty"`
+	Kind string `json:"kind"`
+	// keys bbolt refuses: NilKey passes a nil slice; Long > 0 passes Long bytes of value Fill
+	// (32768 is the longest key bbolt accepts)
+	NilKey bool    `json:"nilkey,omitempty"`
+	Long   int     `json:"long,omitempty"`
+	Fill   int     `json:"fill,omitempty"`
+	Slot   int     `json:"slot,omitempty"`
+	Multi  [][]int `json:"multi,omitempty"`
+	Svc    int     `json:"svc"` // index into Names
+	Key    []int   `json:"key,omitempty"`
+	Val    int     `json:"val,omitempty"` // value number (save) ; raw bytes number (addput)
+	Ver    int64   `json:"ver,omitempty"`
+	Bkt    []int   `json:"bkt,omitempty"`
+	Raw    []int   `json:"raw,omitempty"`
 }
 
 type input struct {
@@ -109,6 +114,27 @@ func toBytes(xs []int) []byte {
 		b[i] = byte(x)
 	}
 	return b
+}
+
+func keyBytes(op opIn) []byte {
+	switch {
+	case op.NilKey:
+		return nil
+	case op.Long > 0:
+		return bytes.Repeat([]byte{byte(op.Fill)}, op.Long)
+	}
+	return toBytes(op.Key)
+}
+
+// keyLit: Coq literal of the key; long constant keys use the compact [rep fill len]
+func keyLit(op opIn) string {
+	if op.Long > 0 && !op.NilKey {
+		return fmt.Sprintf("(rep %d%%N %d%%N)", op.Fill, op.Long)
+	}
+	if op.NilKey {
+		return "[]%N"
+	}
+	return bytesLit(op.Key)
 }
 
 func toInts(b []byte) []int {
@@ -210,12 +236,12 @@ func doOp(c *onet.Context, op opIn) (o outc) {
 	}()
 	switch op.Kind {
 	case "save":
-		if err := c.Save(toBytes(op.Key), mkVal(op.Val)); err != nil {
+		if err := c.Save(keyBytes(op), mkVal(op.Val)); err != nil {
 			return outc{K: "err", Msg: errClass(err)}
 		}
 		return outc{K: "ok"}
 	case "load":
-		v, err := c.Load(toBytes(op.Key))
+		v, err := c.Load(keyBytes(op))
 		if err != nil {
 			return outc{K: "err", Msg: errClass(err)}
 		}
@@ -229,7 +255,7 @@ func doOp(c *onet.Context, op opIn) (o outc) {
 		}
 		return outc{K: "bytes", B: toInts(buf)}
 	case "loadraw":
-		b, err := c.LoadRaw(toBytes(op.Key))
+		b, err := c.LoadRaw(keyBytes(op))
 		if err != nil {
 			return outc{K: "err", Msg: errClass(err)}
 		}
@@ -251,7 +277,7 @@ func doOp(c *onet.Context, op opIn) (o outc) {
 	case "addput":
 		db, bn := c.GetAdditionalBucket(toBytes(op.Bkt))
 		err := db.Update(func(tx *bbolt.Tx) error {
-			return tx.Bucket(bn).Put(toBytes(op.Key), toBytes(op.Raw))
+			return tx.Bucket(bn).Put(keyBytes(op), toBytes(op.Raw))
 		})
 		if err != nil {
 			return outc{K: "err", Msg: errClass(err)}
@@ -262,7 +288,7 @@ func doOp(c *onet.Context, op opIn) (o outc) {
 		var out []byte
 		found := false
 		err := db.View(func(tx *bbolt.Tx) error {
-			v := tx.Bucket(bn).Get(toBytes(op.Key))
+			v := tx.Bucket(bn).Get(keyBytes(op))
 			if v != nil {
 				found = true
 				out = append([]byte{}, v...)
@@ -299,19 +325,19 @@ func namesLit(names []string) string {
 func coqOp(op opIn, valBytes map[int][]int) string {
 	switch op.Kind {
 	case "save":
-		return fmt.Sprintf("HOp %d (OSave %s %s)", op.Svc, bytesLit(op.Key), bytesLit(valBytes[op.Val]))
+		return fmt.Sprintf("HOp %d (OSave %s %s)", op.Svc, keyLit(op), bytesLit(valBytes[op.Val]))
 	case "load":
-		return fmt.Sprintf("HOp %d (OLoad %s)", op.Svc, bytesLit(op.Key))
+		return fmt.Sprintf("HOp %d (OLoad %s)", op.Svc, keyLit(op))
 	case "loadraw":
-		return fmt.Sprintf("HOp %d (OLoadRaw %s)", op.Svc, bytesLit(op.Key))
+		return fmt.Sprintf("HOp %d (OLoadRaw %s)", op.Svc, keyLit(op))
 	case "savever":
 		return fmt.Sprintf("HOp %d (OSaveVer (%d)%%Z)", op.Svc, op.Ver)
 	case "loadver":
 		return fmt.Sprintf("HOp %d OLoadVer", op.Svc)
 	case "addput":
-		return fmt.Sprintf("HOp %d (OAddPut %s %s %s)", op.Svc, bytesLit(op.Bkt), bytesLit(op.Key), bytesLit(op.Raw))
+		return fmt.Sprintf("HOp %d (OAddPut %s %s %s)", op.Svc, bytesLit(op.Bkt), keyLit(op), bytesLit(op.Raw))
 	case "addget":
-		return fmt.Sprintf("HOp %d (OAddGet %s %s)", op.Svc, bytesLit(op.Bkt), bytesLit(op.Key))
+		return fmt.Sprintf("HOp %d (OAddGet %s %s)", op.Svc, bytesLit(op.Bkt), keyLit(op))
 	}
 	return "HRestart"
 }
@@ -323,7 +349,8 @@ func run(raw json.RawMessage) lib.Case {
 	}
 	w, err := newWorld()
 	if err != nil {
-		return lib.Case{Discard: true, Class: in.Class, Obs: err.Error()}
+		// only the scratch directory can fail here: a failure of the harness, never a dropped case
+		panic("c16 harness: cannot create scratch data directory: " + err.Error())
 	}
 	defer func() {
 		w.close()
@@ -433,17 +460,35 @@ func run(raw json.RawMessage) lib.Case {
 		}
 		return outc{K: "bytes", B: toInts(out)}
 	}
+	broken := false
 	for _, op := range in.Ops {
+		if broken {
+			break
+		}
 		if op.Kind == "restart" {
-			w.restart()
 			slots = map[[2]int]*slot{} // the database handle of the old server is closed
-			emit("HRestart", outc{K: "ok"})
+			ro := outc{K: "ok"}
+			func() {
+				defer func() {
+					if r := recover(); r != nil {
+						ro = outc{K: "crash", Msg: fmt.Sprint(r)}
+					}
+				}()
+				w.restart()
+			}()
+			emit("HRestart", ro)
 			verify()
+			if ro.K != "ok" {
+				// the server did not come back: the history ends here, the crash is the observation
+				broken = true
+			}
 			continue
 		}
 		c := ctx(in.Names[op.Svc])
 		if c == nil {
-			return lib.Case{Discard: true, Class: in.Class, Obs: "no context for " + in.Names[op.Svc]}
+			// every name in allNames is registered, so a server that started has a context for it;
+			// only a replay file with an unknown name gets here: fail loudly, never drop the case
+			panic("c16 harness: no service context for " + in.Names[op.Svc])
 		}
 		sl := slots[[2]int{op.Svc, op.Slot}]
 		switch op.Kind {
@@ -458,9 +503,9 @@ func run(raw json.RawMessage) lib.Case {
 				db, bn := c.GetAdditionalBucket(toBytes(op.Bkt))
 				ns := &slot{db: db, name: bn, bkt: op.Bkt}
 				slots[[2]int{op.Svc, op.Slot}] = ns
-				o = rawGet(db, bn, toBytes(op.Key))
+				o = rawGet(db, bn, keyBytes(op))
 			}()
-			pos := emit(fmt.Sprintf("HOp %d (OAddGet %s %s)", op.Svc, bytesLit(op.Bkt), bytesLit(op.Key)), o)
+			pos := emit(fmt.Sprintf("HOp %d (OAddGet %s %s)", op.Svc, bytesLit(op.Bkt), keyLit(op)), o)
 			if ns := slots[[2]int{op.Svc, op.Slot}]; ns != nil {
 				keep(pos, func() []byte { return ns.name })
 			}
@@ -474,11 +519,11 @@ func run(raw json.RawMessage) lib.Case {
 				op2.Kind = k
 				emit(coqOp(op2, valBytes), doOp(c, op2))
 			} else if op.Kind == "hput" {
-				emit(fmt.Sprintf("HOp %d (OAddPut %s %s %s)", op.Svc, bytesLit(sl.bkt), bytesLit(op.Key), bytesLit(op.Raw)),
-					rawPut(sl.db, sl.name, toBytes(op.Key), toBytes(op.Raw)))
+				emit(fmt.Sprintf("HOp %d (OAddPut %s %s %s)", op.Svc, bytesLit(sl.bkt), keyLit(op), bytesLit(op.Raw)),
+					rawPut(sl.db, sl.name, keyBytes(op), toBytes(op.Raw)))
 			} else {
-				emit(fmt.Sprintf("HOp %d (OAddGet %s %s)", op.Svc, bytesLit(sl.bkt), bytesLit(op.Key)),
-					rawGet(sl.db, sl.name, toBytes(op.Key)))
+				emit(fmt.Sprintf("HOp %d (OAddGet %s %s)", op.Svc, bytesLit(sl.bkt), keyLit(op)),
+					rawGet(sl.db, sl.name, keyBytes(op)))
 			}
 		case "cadd":
 			res := make([]outc, len(op.Multi))
@@ -494,7 +539,7 @@ func run(raw json.RawMessage) lib.Case {
 			wg.Wait()
 			// puts into different buckets commute: reported in index order
 			for i := range op.Multi {
-				emit(fmt.Sprintf("HOp %d (OAddPut %s %s %s)", op.Svc, bytesLit(op.Multi[i]), bytesLit(op.Key), bytesLit([]int{i + 1, op.Svc + 1, 77})), res[i])
+				emit(fmt.Sprintf("HOp %d (OAddPut %s %s %s)", op.Svc, bytesLit(op.Multi[i]), keyLit(op), bytesLit([]int{i + 1, op.Svc + 1, 77})), res[i])
 			}
 		case "load":
 			// like doOp, but the decoded value stays with the "service"
@@ -506,7 +551,7 @@ func run(raw json.RawMessage) lib.Case {
 						o = outc{K: "crash", Msg: fmt.Sprint(r)}
 					}
 				}()
-				v, err := c.Load(toBytes(op.Key))
+				v, err := c.Load(keyBytes(op))
 				switch {
 				case err != nil:
 					o = outc{K: "err", Msg: errClass(err)}
@@ -535,7 +580,7 @@ func run(raw json.RawMessage) lib.Case {
 						o = outc{K: "crash", Msg: fmt.Sprint(r)}
 					}
 				}()
-				b, err := c.LoadRaw(toBytes(op.Key))
+				b, err := c.LoadRaw(keyBytes(op))
 				switch {
 				case err != nil:
 					o = outc{K: "err", Msg: errClass(err)}
@@ -827,8 +872,67 @@ func genHist(rng *rand.Rand, class string, nops int) input {
 	return in
 }
 
+// genKeys: the three kinds of key bbolt refuses (empty, nil, longer than 32768 bytes), the
+// longest accepted key (32768), each saved and then loaded, followed by a valid save/load
+// of a neighbouring key, with a restart in between now and then.
+func genKeys(rng *rand.Rand) input {
+	perm := rng.Perm(len(isoPool))
+	names := []string{allNames[isoPool[perm[0]]], allNames[isoPool[perm[1]]]}
+	in := input{Kind: "hist", Class: "keys", Names: names}
+	fill := 1 + rng.Intn(200)
+	kinds := []opIn{
+		{Key: []int{}},            // empty
+		{NilKey: true},            // nil
+		{Long: 32769, Fill: fill}, // one byte too long
+		{Long: 32768, Fill: fill}, // longest accepted
+		{Long: 40000 + rng.Intn(30000), Fill: fill + 1},
+	}
+	neighbours := []opIn{{Key: []int{fill}}, {Long: 32767, Fill: fill}, {Key: []int{0}}, {Long: 32768, Fill: fill + 2}}
+	val := 0
+	for _, pi := range rng.Perm(len(kinds)) {
+		k := kinds[pi]
+		s := rng.Intn(2)
+		mk := func(kind string) opIn { o := k; o.Kind = kind; o.Svc = s; return o }
+		if rng.Intn(2) == 0 { // an older value under a valid neighbour, to catch stale answers
+			nb := neighbours[rng.Intn(len(neighbours))]
+			nb.Kind, nb.Svc, nb.Val = "save", s, val
+			val++
+			in.Ops = append(in.Ops, nb)
+		}
+		sv := mk("save")
+		sv.Val = val
+		val++
+		in.Ops = append(in.Ops, sv, mk("load"), mk("loadraw"))
+		if rng.Intn(3) == 0 {
+			in.Ops = append(in.Ops, opIn{Kind: "restart"}, mk("load"))
+		}
+		ap := mk("addput")
+		ap.Bkt, ap.Raw = []int{120}, []int{pi, 5}
+		ag := mk("addget")
+		ag.Bkt = []int{120}
+		in.Ops = append(in.Ops, ap, ag)
+		// the other service must not see it, and a neighbouring valid key works
+		ol := mk("loadraw")
+		ol.Svc = 1 - s
+		nb := neighbours[rng.Intn(len(neighbours))]
+		nbs, nbl := nb, nb
+		nbs.Kind, nbs.Svc, nbs.Val = "save", s, val
+		val++
+		nbl.Kind, nbl.Svc = "load", s
+		in.Ops = append(in.Ops, ol, nbs, nbl, mk("load"))
+	}
+	return in
+}
+
 func generate(rng *rand.Rand, tier string) []interface{} {
 	var ins []interface{}
+	nKeys := 8
+	if tier != "quick" {
+		nKeys = 80
+	}
+	for i := 0; i < nKeys; i++ {
+		ins = append(ins, genKeys(rng))
+	}
 	nIso, nClash, nConc, nBig, maxOps := 150, 40, 10, 24, 40
 	if tier != "quick" {
 		nIso, nClash, nConc, nBig, maxOps = 2200, 500, 100, 400, 80
@@ -909,6 +1013,25 @@ func corpus() []interface{} {
 		}},
 		// values loaded from a large bucket stay what they were, across later writes and a restart
 		bigCorpus(),
+		// keys bbolt refuses: Save must not report success and then lose the value
+		input{Kind: "hist", Class: "keys", Names: []string{"Alpha", "ElevenBytes"}, Ops: []opIn{
+			{Kind: "save", Svc: 0, Key: []int{7}, Val: 1},
+			{Kind: "save", Svc: 0, Key: []int{}, Val: 2},
+			{Kind: "load", Svc: 0, Key: []int{}},
+			{Kind: "save", Svc: 0, NilKey: true, Val: 3},
+			{Kind: "loadraw", Svc: 0, NilKey: true},
+			{Kind: "save", Svc: 0, Long: 32768, Fill: 7, Val: 4},
+			{Kind: "load", Svc: 0, Long: 32768, Fill: 7},
+			{Kind: "save", Svc: 0, Long: 32769, Fill: 7, Val: 5},
+			{Kind: "load", Svc: 0, Long: 32769, Fill: 7},
+			{Kind: "loadraw", Svc: 1, Long: 32768, Fill: 7},
+			{Kind: "restart"},
+			{Kind: "load", Svc: 0, Long: 32768, Fill: 7},
+			{Kind: "load", Svc: 0, Long: 32769, Fill: 7},
+			{Kind: "save", Svc: 0, Long: 32767, Fill: 7, Val: 6},
+			{Kind: "load", Svc: 0, Long: 32767, Fill: 7},
+			{Kind: "load", Svc: 0, Key: []int{7}},
+		}},
 	}
 }
 
@@ -939,7 +1062,7 @@ func main() {
 		Import: "Onet.Corr.C16",
 		Rule: "seeded histories of 8-40 (thorough: 8-80) storage operations by 2-4 services with prefix-sharing names on one real server, " +
 			"few shared keys and bucket names, restarts on the same data directory; 'clash' histories use names violating the side condition " +
-			"(model comparison only); 'concurrent' cases run 2-4 savers per key and service with concurrent loaders; 'big' histories fill buckets " +
+			"(model comparison only); 'concurrent' cases run 2-4 savers per key and service with concurrent loaders; 'keys' histories save and load under the keys bbolt refuses (empty, nil, 32769 and more bytes) and the longest accepted key (32768) with valid neighbours; 'big' histories fill buckets " +
 			"beyond bbolt's inline size with 150-330 byte values over many keys; service names of 4-19 bytes (incl. 11, 13, 19); services hold several " +
 			"additional-bucket names at once and request several concurrently; every value / bucket name handed out is re-compared after every later operation and restart; " +
 			"non-trivial = some load returned data; distinct = distinct Coq case term",
